@@ -147,11 +147,23 @@ func C16(p *core.Prog, r *core.Report) {
 				r.Bad("LAYOUT", key+"|index-width", p.Pos(lf.verbPos), fmt.Sprintf("index width %d here, %d in NewOrigin: blocks written by gts fail this validator (or are mis-measured)", v, W))
 			}
 		}
-		// loops
-		if len(lf.steps) >= 2 {
-			okL := lf.steps[0] == L && lf.steps[1] == G
+		// loops: the line and group loops are the ones that step by more than one (a helper that pads the
+		// index, inlined into the walker, adds a loop over single bytes bounded by the index width)
+		var steps, bounds []int64
+		for _, st := range lf.steps {
+			if st > 1 {
+				steps = append(steps, st)
+			}
+		}
+		for _, b := range lf.bounds {
+			if b != W {
+				bounds = append(bounds, b)
+			}
+		}
+		if len(lf.steps) >= 2 && len(steps) >= 2 {
+			okL := steps[0] == L && steps[1] == G
 			okB := true
-			for i, b := range lf.bounds {
+			for i, b := range bounds {
 				switch i {
 				case 0:
 					okB = okB && b == L
@@ -533,20 +545,45 @@ func originParsed(p *core.Prog, r *core.Report, ob *layoutFn) {
 	}
 	fl := core.NewFlow(info, ob.fd.Body)
 	var bad *ast.ReturnStmt
-	// state: 0 = Parsed may be true, 1 = Parsed known false (the formatted state)
+	stored := map[types.Object]bool{} // locals assigned to o.Buffer: handing one out hands out the buffer
+	ast.Inspect(ob.fd.Body, func(n ast.Node) bool {
+		if as, ok := n.(*ast.AssignStmt); ok && len(as.Lhs) == len(as.Rhs) {
+			for i, l := range as.Lhs {
+				if isField(l, "Buffer") {
+					if o := core.ObjOf(info, as.Rhs[i]); o != nil {
+						stored[o] = true
+					}
+				}
+			}
+		}
+		return true
+	})
+	// state: 0 = Parsed may be true, 1 = Parsed known false (the formatted state), 2 = the buffer was just replaced
 	core.Scan(fl, fl.Entry(), 0, core.Stepper[int]{
 		Node: func(s int, n ast.Node) (int, bool) {
 			if as, ok := n.(*ast.AssignStmt); ok {
 				for i, l := range as.Lhs {
+					if isField(l, "Buffer") && i < len(as.Rhs) && s == 1 {
+						if o := core.ObjOf(info, as.Rhs[i]); o != nil && stored[o] {
+							s = 2
+						}
+					}
 					if isField(l, "Parsed") && i < len(as.Rhs) {
 						if tv, has := info.Types[as.Rhs[i]]; has && tv.Value != nil && tv.Value.String() == "true" {
+							if s == 2 {
+								return 3, false // decoded on this very path: the local and o.Buffer are the same slice
+							}
 							return 0, false
 						}
 					}
 				}
 			}
 			if rs, ok := n.(*ast.ReturnStmt); ok {
-				if s == 0 && !(len(rs.Results) == 1 && isField(rs.Results[0], "Buffer")) && bad == nil {
+				isBuf := len(rs.Results) == 1 && isField(rs.Results[0], "Buffer")
+				if s == 3 && len(rs.Results) == 1 && stored[core.ObjOf(info, rs.Results[0])] {
+					isBuf = true
+				}
+				if (s == 0 || s == 3) && !isBuf && bad == nil {
 					bad = rs
 				}
 				return s, true
@@ -555,7 +592,7 @@ func originParsed(p *core.Prog, r *core.Report, ob *layoutFn) {
 		},
 		Edge: func(s int, cond ast.Expr, taken bool) int {
 			core.Facts(cond, taken, func(atom ast.Expr, val bool) {
-				if isField(atom, "Parsed") && !val {
+				if isField(atom, "Parsed") && !val && s == 0 {
 					s = 1
 				}
 			})
